@@ -90,3 +90,40 @@ def form_of(pairs, const=0):
         c = -c
         flipped = True
     return tuple(sorted(co.items(), key=lambda kv: repr(kv[0]))), c, flipped
+
+
+def quotient_shape(t):
+    """('ceil'|'floor', N, S) when t is a recognised spelling of ceil(N / S) or floor(N / S) over the integers:
+    -(-N // S), (N + S - 1) // S, (N - 1) // S + 1, math.ceil(N / S), int(math.ceil(N / S)), N // S, math.floor(N / S).
+    N is returned as a linear form (coeffs, const), S as a term.  None for anything else."""
+    if t[0] == "call" and t[1] == ("builtin", "int") and len(t[2]) == 1 and t[2][0][0] == "call" and t[2][0][1][0] == "glob":
+        t = t[2][0]
+    if t[0] == "call" and t[1] in (("glob", "math.ceil"), ("glob", "math.floor")) and len(t[2]) == 1:
+        q = t[2][0]
+        if q[0] == "binop" and q[1] == "Div":
+            f = linform(q[2])
+            if f is not None:
+                return ("ceil" if t[1][1].endswith("ceil") else "floor", f, q[3])
+        return None
+    if t[0] == "unop" and t[1] == "USub" and t[2][0] == "binop" and t[2][1] == "FloorDiv":
+        f = linform(t[2][2])
+        if f is not None:
+            return ("ceil", ({k: -v for k, v in f[0].items()}, -f[1]), t[2][3])
+        return None
+    if t[0] == "binop" and t[1] == "FloorDiv":
+        S = t[3]
+        f = linform(t[2])
+        if f is None:
+            return None
+        co = dict(f[0])
+        if co.get(S) == 1 and f[1] == -1:
+            del co[S]
+            return ("ceil", (co, Fraction(0)), S)
+        return ("floor", f, S)
+    if t[0] == "binop" and t[1] == "Add":
+        for a, b in ((t[2], t[3]), (t[3], t[2])):
+            if b == ("const", 1) and a[0] == "binop" and a[1] == "FloorDiv":
+                f = linform(a[2])
+                if f is not None:
+                    return ("ceil", (f[0], f[1] + 1), a[3])
+    return None
